@@ -108,7 +108,7 @@ fn mk_sink(kind: usize, store: std::rc::Rc<std::cell::RefCell<Vec<u8>>>) -> Box<
 }
 
 /// returns (write calls executed, distinct (pos, inner content) states, violations)
-fn writers_for(input: &[u8], with_empty_writes: bool) -> (u64, u64, Vec<Viol>) {
+fn writers_for(input: &[u8], with_empty_writes: bool, with_flushes: bool) -> (u64, u64, Vec<Viol>) {
     let n = input.len();
     let mut calls = 0u64;
     let mut states: BTreeSet<(usize, usize, Vec<u8>)> = BTreeSet::new();
@@ -129,6 +129,10 @@ fn writers_for(input: &[u8], with_empty_writes: bool) -> (u64, u64, Vec<Viol>) {
                                 w.write_all(&[]).unwrap();
                             }
                             w.write_all(&input[start..=i]).unwrap();
+                            if with_flushes {
+                                // a flush between write calls is not a segment boundary
+                                w.flush().unwrap();
+                            }
                             calls += 1;
                             start = i + 1;
                         }
@@ -143,7 +147,7 @@ fn writers_for(input: &[u8], with_empty_writes: bool) -> (u64, u64, Vec<Viol>) {
                 if inner != want {
                     let rem_empty = input.last() == Some(&M) || input.is_empty();
                     let sig = if rem_empty && inner.len() > want.len() { "mapped:empty-remainder-mapped" } else { "mapped:content" };
-                    viols.push((sig.to_string(), format!("MappedWrite({fname}) input {:?} chunk mask {mask:b} finished by {}: inner writer holds {:?}, expected {:?}", String::from_utf8_lossy(input), if finish == 0 { "drop" } else { "unwrap" }, String::from_utf8_lossy(&inner), String::from_utf8_lossy(&want)), json!({"kind": "mapped", "input": input, "mask": mask, "fn": fname, "finish": finish})));
+                    viols.push((sig.to_string(), format!("MappedWrite({fname}) input {:?} chunk mask {mask:b}{} finished by {}: inner writer holds {:?}, expected {:?}", String::from_utf8_lossy(input), if with_flushes { " with a flush after every write" } else { "" }, if finish == 0 { "drop" } else { "unwrap" }, String::from_utf8_lossy(&inner), String::from_utf8_lossy(&want)), json!({"kind": "mapped", "input": input, "mask": mask, "fn": fname, "finish": finish, "flushes": with_flushes})));
                 }
             }
         }
@@ -188,6 +192,39 @@ fn writers_for(input: &[u8], with_empty_writes: bool) -> (u64, u64, Vec<Viol>) {
         }
     }
     (calls, states.len() as u64, viols)
+}
+
+/// segment lengths around every power of two from 2^10 to 2^17 (internal buffer thresholds): one
+/// long segment + marker + short remainder, written whole, in two halves and in 4096-byte chunks
+fn big_segments() -> (u64, u64, Vec<Viol>) {
+    let mut calls = 0u64;
+    let mut viols = Vec::new();
+    let mut n = 0u64;
+    for k in 10..=17u32 {
+        for size in [(1usize << k) - 1, 1 << k, (1 << k) + 1] {
+            let mut input = vec![b'a'; size];
+            input.push(M);
+            input.extend_from_slice(b"bb");
+            for (fname, f) in mapping_fns().into_iter().take(2) {
+                let want = ref_mapped(&input, &f);
+                for chunk in [input.len(), input.len() / 2 + 1, 4096] {
+                    let mut inner: Vec<u8> = Vec::new();
+                    {
+                        let mut w = mapped(&mut inner, M, f);
+                        for c in input.chunks(chunk) {
+                            w.write_all(c).unwrap();
+                            calls += 1;
+                        }
+                    }
+                    n += 1;
+                    if inner != want {
+                        viols.push(("mapped:content-long-segment".to_string(), format!("MappedWrite({fname}) on a segment of {size} bytes + marker + 2 bytes written in chunks of {chunk}: inner writer holds {} bytes, expected {} (first difference at byte {})", inner.len(), want.len(), inner.iter().zip(&want).position(|(a, b)| a != b).unwrap_or(inner.len().min(want.len()))), json!({"kind": "mapped-long", "size": size, "chunk": chunk, "fn": fname})));
+                    }
+                }
+            }
+        }
+    }
+    (calls, n, viols)
 }
 
 fn all_strings(max: usize) -> Vec<Vec<u8>> {
@@ -755,9 +792,14 @@ fn main() {
             } else {
                 println!("conforms to the pipe model; all bytes delivered in order");
             }
+        } else if r["kind"] == "mapped-long" {
+            for (sig, what, _) in big_segments().2 {
+                println!("DIFFERENCE: {what}");
+                rep.violation(&sig, what, json!({}));
+            }
         } else {
             let input: Vec<u8> = serde_json::from_value(r["input"].clone()).unwrap();
-            for (sig, what, _) in writers_for(&input, true).2 {
+            for (sig, what, _) in writers_for(&input, true, r["flushes"].as_bool().unwrap_or(false)).2 {
                 println!("DIFFERENCE: {what}");
                 rep.violation(&sig, what, json!({}));
             }
@@ -766,7 +808,9 @@ fn main() {
     }
     // (a) writers
     let strings = all_strings(if args.thorough() { 8 } else { 7 });
-    let wres: Vec<(u64, u64, Vec<Viol>)> = strings.par_iter().map(|s| writers_for(s, s.len() <= 4)).collect();
+    let mut wres: Vec<(u64, u64, Vec<Viol>)> = strings.par_iter().map(|s| writers_for(s, s.len() <= 4, false)).collect();
+    wres.extend(strings.par_iter().filter(|s| s.len() <= 6).map(|s| writers_for(s, false, true)).collect::<Vec<_>>());
+    wres.push(big_segments());
     let mut wcalls = 0;
     let mut wstates = 0;
     for (c, s, v) in wres {
